@@ -1,5 +1,6 @@
 import Hertz.Proofs.Hz
 import Hertz.Proofs.HzGen
+import Hertz.Proofs.HzDenote
 /-!
 # C16 — hz-generated router code registers exactly the routes declared in the IDL
 
@@ -19,6 +20,15 @@ What is proved for ALL inputs (no bound on the number of methods, path depth, na
 * `identifiers_distinct_partial`  camel-style names, fresh router directory: the functions of middleware.go
                                and the variables of `Register` are pairwise distinct, whatever names were
                                taken before in the process;
+* `register_denotes_declared_routes`  THE DENOTATION THEOREM: for clean paths and identifier handler names,
+                               executing the rendered `Register` statements succeeds and registers exactly the
+                               declared (verb, full path, handler) list, each route behind one middleware per path
+                               element — every option combination, both naming styles, fresh or update;
+* `register_denotes_sorted`    … and with sort-router every group on a route's path wraps the route;
+* `register_variables_distinct`  the variables of `Register` are distinct in both naming styles;
+* `register_calls_declared_middleware`  fresh directory: every `…Mw()` that `Register` calls is declared;
+* `identifiers_distinct_update`, `identifiers_distinct_two_step`  camel style: updating an existing
+                               middleware.go declares nothing twice and keeps what was there;
 * `model_matches_gen`          the templates, `RouterGroup.Any`, the probe bound and the root node are the
                                ones the model was written against (regenerated from the source each run).
 
@@ -163,6 +173,99 @@ theorem group_middleware_covers_sorted_witness :
     ∧ weakExactOf splitWitness (generate { sortRouter := true } splitWitness [] none) = true
     ∧ weakExactOf splitWitness (generate {} splitWitness [] none) = true := by decide
 
+/-! ## the denotation theorem -/
+
+/-- **What the generated `Register` does.**  Every declared path clean (`cleanPath`: leading slash, no
+empty inner element, no `.`/`..`, printable without `"` and `\`); every handler name without a dot (a Go
+identifier).  Then, for every option combination (sort-router, snake or camel names, handler by method or
+by service), every set of names taken before, fresh generation or update: executing the rendered
+statements (`interp`, which fails on a variable that is not in scope and on unbalanced blocks) succeeds;
+the (verb, full path, handler name) list it registers is a permutation of the declared one — full paths
+computed as hertz's `RouterGroup` joins them; and every route is registered behind exactly one middleware
+function per element of its path plus the root's. -/
+theorem register_denotes_declared_routes (cfg : Cfg) (ms : List Method)
+    (hclean : ∀ m ∈ ms, cleanPath m.path = true) (hnames : ∀ m ∈ ms, (46 : UInt8) ∉ m.name)
+    (used : List Bytes) (ex : Option (List Bytes)) (o : Output) (h : generate cfg ms used ex = .ok o) :
+    ∃ rs gs, interp o.stmts scope0 = some (rs, gs) ∧ exactRoutes ms rs = true ∧ chainsWeak rs = true :=
+  generate_denotes cfg ms (fun m hm => ⟨hclean m hm, hnames m hm⟩) used ex o h
+
+/-- non-vacuity: a four-method list (one path with a trailing slash, one nested below a route) satisfies
+the hypotheses and generates, in camel and in snake style -/
+example : (∀ m ∈ splitWitness ++ [⟨POST, [47,97,47], [68], []⟩], cleanPath m.path = true ∧ (46 : UInt8) ∉ m.name)
+    ∧ weakExactOf (splitWitness ++ [⟨POST, [47,97,47], [68], []⟩])
+        (generate {} (splitWitness ++ [⟨POST, [47,97,47], [68], []⟩]) [] none) = true := by decide +kernel
+
+example : weakExactOf splitWitness (generate snakeCfg splitWitness [] none) = true := by decide +kernel
+
+/-- The hypothesis on handler names is needed for the statement as the spec words it (`routeKey` reads the
+handler name as what follows the last dot of the rendered `alias.name`): a name with a dot is not a Go
+identifier and `exactRoutes` is false for it. -/
+theorem register_denotes_needs_identifier_names :
+    weakExactOf [⟨GET, [47, 97], [65, 46, 66], []⟩] (generate {} [⟨GET, [47, 97], [65, 46, 66], []⟩] [] none) = false := by
+  decide
+
+/-- **Group middleware covers, with sort-router.**  Same hypotheses, `sort_router` on, every verb
+non-empty: every group declared anywhere in `Register` whose full path is a proper prefix of a registered
+route's path has its middleware function in the route's chain (there is one group per prefix — the
+statement that is false without sort-router, `group_middleware_covers_fails_at`).  The three parts
+together, about one interpretation of the rendered statements: -/
+theorem register_denotes_sorted (cfg : Cfg) (hsr : cfg.sortRouter = true)
+    (ms : List Method) (hclean : ∀ m ∈ ms, cleanPath m.path = true) (hnames : ∀ m ∈ ms, (46 : UInt8) ∉ m.name)
+    (hverbs : ∀ m ∈ ms, m.verb ≠ [])
+    (used : List Bytes) (ex : Option (List Bytes)) (o : Output) (h : generate cfg ms used ex = .ok o) :
+    ∃ rs gs, interp o.stmts scope0 = some (rs, gs) ∧ exactRoutes ms rs = true ∧ chainsWeak rs = true
+      ∧ chainsStrong rs gs = true := by
+  obtain ⟨rs, gs, h1, h2, h3, h4⟩ :=
+    generate_denotes_strong cfg ms (fun m hm => ⟨hclean m hm, hnames m hm⟩) used ex o h
+  exact ⟨rs, gs, h1, h2, h3, h4 hsr hverbs⟩
+
+/-- non-vacuity: the list that splits the `/a` group without sort-router satisfies the hypotheses -/
+example : (∀ m ∈ splitWitness, cleanPath m.path = true ∧ (46 : UInt8) ∉ m.name ∧ m.verb ≠ [])
+    ∧ strongOf (generate { sortRouter := true } splitWitness [] none) = true := by decide +kernel
+
+/-- The variables `Register` declares are pairwise distinct in BOTH naming styles, fresh or update (the
+duplicates of `identifiers_distinct_fails_at` are functions of middleware.go, never variables). -/
+theorem register_variables_distinct (cfg : Cfg) (ms : List Method) (hclean : ∀ m ∈ ms, cleanPath m.path = true)
+    (hnames : ∀ m ∈ ms, (46 : UInt8) ∉ m.name) (used : List Bytes) (ex : Option (List Bytes)) (o : Output)
+    (h : generate cfg ms used ex = .ok o) : (declaredVars o.stmts).Nodup :=
+  generate_vars_nodup cfg ms (fun m hm => ⟨hclean m hm, hnames m hm⟩) used ex o h
+
+example : declaredVars (stmtsOf (generate snakeCfg splitWitness [] none)) = [[114,111,111,116], [95,97], [95,97,48]] := by
+  decide +kernel
+
+/-- Fresh router directory, both naming styles, every input: every middleware function the rendered
+`Register` calls (`…Mw()` in a `Group(...)` or a route registration) is declared by the rendered
+middleware.go.  (For the update flow this is TODO-OPEN B.) -/
+theorem register_calls_declared_middleware (cfg : Cfg) (ms : List Method) (used : List Bytes) (o : Output)
+    (h : generate cfg ms used none = .ok o) : ∀ f ∈ referencedMws o.stmts, f ∈ o.funcs :=
+  generate_referenced_declared cfg ms used o h
+
+example : referencedMws (stmtsOf (generate {} [⟨GET, [47, 97], [65], []⟩] [] none))
+    = [[114,111,111,116,77,119], [95,97,77,119]] := by decide
+
+/-! ## update of an existing middleware.go -/
+
+/-- Camel-style names, router directory whose middleware.go declares the pairwise distinct functions `fs`
+(in particular: the functions of any earlier camel-style generation, `identifiers_distinct_partial`): after
+the update no function and no variable is declared twice, and the existing functions are still there, in
+order, at the front of the file.  (Snake style: `identifiers_distinct_update_fails_at`.) -/
+theorem identifiers_distinct_update (cfg : Cfg) (hs : cfg.snake = false) (ms : List Method) (used : List Bytes)
+    (fs : List Bytes) (hfs : fs.Nodup) (o : Output) (h : generate cfg ms used (some fs) = .ok o) :
+    o.funcs.Nodup ∧ (declaredVars o.stmts).Nodup ∧ fs <+: o.funcs :=
+  generate_idents_update cfg hs ms used fs hfs o h
+
+/-- the update flow the correspondence run exercises: generate a prefix of the method list in a fresh
+directory, then the whole list on top of the resulting middleware.go -/
+theorem identifiers_distinct_two_step (cfg : Cfg) (hs : cfg.snake = false) (ms0 ms : List Method)
+    (used0 used : List Bytes) (o0 o : Output) (h0 : generate cfg ms0 used0 none = .ok o0)
+    (h : generate cfg ms used (some o0.funcs) = .ok o) :
+    o.funcs.Nodup ∧ (declaredVars o.stmts).Nodup ∧ o0.funcs <+: o.funcs :=
+  generate_idents_update cfg hs ms used o0.funcs (generate_idents cfg hs ms0 used0 o0 h0).1 o h
+
+example : funcsOf (generate {} [⟨GET, [47, 97], [65], []⟩, ⟨GET, [47, 98], [66], []⟩] []
+        (some (funcsOf (generate {} [⟨GET, [47, 97], [65], []⟩] [] none))))
+    = [[114,111,111,116,77,119], [95,97,77,119], [95,98,77,119]] := by decide
+
 /-! ## two further defects of the rendered files -/
 
 /-- A service without routes: `Register` is empty, the import of the handler package stays. -/
@@ -193,26 +296,36 @@ theorem model_matches_gen :
 example : Gen.HzTpl.anyMethods.length = 9 := by decide
 
 /-
-TODO-OPEN (stated, not proved; each is evaluated on the implementation's own output for every case of the
-correspondence run, see Driver/C16.lean):
+TODO-OPEN — state after the proof round (`Proofs/HzDenote.lean`).
 
-1. denotation theorem.  For every `o` with `generate cfg ms used ex = .ok o`, all declared paths clean
-   (`cleanPath`), camel style:
-     `interp o.stmts scope0 = some (rs, gs)` with
-     `rs.map (fun r => (r.verb, r.path, afterLastDot r.handler)) ~ ms.map declaredKey`  (i.e. `exactRoutes ms rs`)
-     and `chainsWeak rs`.
-   Missing: (a) `dye` sets `groupName` to the parent's `middleWare` (invariant of the `groups` stack),
-   (b) variable lookup in `interp` finds the parent's binding — needs `identifiers_distinct_partial` plus
-   scoping of blocks, (c) no inner node has path `/` (needs "no empty inner segment" carried through `build`),
-   (d) `joinPath` over node paths = `flatten` (have `route_path_spells_declared`).
-   `gen_registers_exactly` is the tree-level half of this statement.
+PROVED (were items 1–3 of this block):
 
-2. `chainsStrong` under sort-router: for `cfg.sortRouter = true` and clean paths, every declared group whose
-   path is a proper prefix of a route wraps it (one group per prefix).  Missing: invariant "sibling group
-   nodes have distinct paths" through `findNearest`/`insertAt` in sort mode.
+1. denotation theorem = `register_denotes_declared_routes`: for every successful generation over clean
+   paths and dot-free handler names — both naming styles, every option, fresh or update —
+   `interp o.stmts scope0 = some (rs, gs)` with `exactRoutes ms rs` and `chainsWeak rs`.  The four
+   ingredients: (a) `dye_gn` (groups stack: `GroupName` = parent's `MiddleWare`), (b) `interp_node` /
+   `interp_nodes` (scoping, from `register_variables_distinct`, now also for snake style), (c) `buildWith_shape`
+   (a node with children is never called `/`; node paths are `/seg`, `seg` slash-free), (d) `joinPath_full`.
+   The hypothesis "no dot in a handler name" is needed by the spec's `routeKey`
+   (`register_denotes_needs_identifier_names`).
+2. `chainsStrong` under sort-router = `register_denotes_sorted`, with the extra explicit hypothesis that
+   every verb is non-empty (`buildWith_si`: only method-less nodes have children and method-less siblings
+   have distinct paths; `strongN`).
+3. update flow, camel style = `identifiers_distinct_update` (any existing middleware.go with distinct
+   function names) and `identifiers_distinct_two_step`.
 
-3. `identifiers_distinct` for the update flow in camel style (`ex = some fs` where `fs` are the functions of
-   an earlier generation in a fresh process): needs `mwDeclared` ⇔ membership for names over `[_a-z0-9]`.
+STILL OPEN (stated, not proved; evaluated per case by Driver/C16.lean):
+
+A. `register_denotes_sorted` without `m.verb ≠ []`.  A method with an empty verb yields a leaf without
+   HTTP method, which sort-router's `FindNearest` treats as a group node; the invariant then needs the
+   stability of `sort.Sort`'s insertion sort.  Not refuted: no counterexample among all lists of ≤ 4
+   methods over 5 paths × {"", GET}.  (hz never produces an empty verb: it comes from the annotation name.)
+B. update flow: every middleware function the new router.go refers to is declared in the updated
+   middleware.go (`∀ f ∈ mwFuncs o.tree, f ∈ o.funcs` for `ex = some fs`, `fs` from an earlier camel-style
+   generation).  Needs `mwDeclared` (a prefix test) ⇔ membership for names `x ++ "Mw"` with `x` over
+   `[_a-z0-9]`.  Only "nothing is declared twice" is proved for the update flow.
+C. the statements about paths outside `cleanPath` (empty inner elements, `.`/`..`): the driver only judges
+   the (verb, handler) set there.
 -/
 
 end Hertz.Props.C16
